@@ -16,12 +16,22 @@ type pvCase struct {
 	Type string  `json:"type"` // bytes number array
 	Ops  []*aVal `json:"ops"`
 	Un   []bool  `json:"unlock"` // carried on an unlock (true) or a lock (false) command
+	Upd  []int   `json:"upd,omitempty"` // indices of SET operations carried on a LOCK with the update flag (1) / a zero-expiry LOCK (2)
+}
+
+func (c *pvCase) upd(i int) int {
+	for j := 0; j+1 < len(c.Upd); j += 2 {
+		if c.Upd[j] == i {
+			return c.Upd[j+1]
+		}
+	}
+	return 0
 }
 
 func (c *pvCase) fingerprint() uint64 {
 	s := c.Type
 	for i, o := range c.Ops {
-		s += o.String() + fmt.Sprint(c.Un[i])
+		s += o.String() + fmt.Sprint(c.Un[i], c.upd(i))
 	}
 	return vHash(s)
 }
@@ -54,6 +64,12 @@ func pvRun(c *pvCase) (info pvInfo, err error) {
 		}
 		cmd.Expried = 10
 		cmd.Flag = protocol.LOCK_FLAG_CONTAINS_DATA
+		switch c.upd(i) {
+		case 1:
+			cmd.Flag |= protocol.LOCK_FLAG_UPDATE_WHEN_LOCKED
+		case 2:
+			cmd.Expried = 0
+		}
 		cmd.Data = op.commandData()
 		lock := &Lock{manager: m, command: cmd}
 		before := m.GetLockData()
@@ -174,7 +190,26 @@ func TestC15_PureDifferential(t *testing.T) {
 			op := pvGenOp(t, c.Type, 0, cur, &ginfo)
 			c.Ops = append(c.Ops, op)
 			c.Un = append(c.Un, rapid.IntRange(0, 3).Draw(t, "onUnlock") == 0)
+			if op.Op == "set" && !c.Un[len(c.Un)-1] && rapid.IntRange(0, 2).Draw(t, "setCarrier") == 0 {
+				c.Upd = append(c.Upd, len(c.Ops)-1, rapid.IntRange(1, 2).Draw(t, "setCarrierKind"))
+			}
 			cur = aInterp(cur, op)
+		}
+		retyped := false
+		if c.Type != "number" && rapid.IntRange(0, 99).Draw(t, "retype") < 15 {
+			// the same payload bytes stored twice with different value types: a SET is only a no-op when the whole
+			// frame (type flag included) equals the stored one
+			elems := rapid.SliceOfN(rapid.SliceOfN(rapid.Byte(), 1, 5), 1, 3).Draw(t, "retypeElems")
+			p := aArrayBytes(elems)
+			first := rapid.Bool().Draw(t, "retypeArrayFirst")
+			for _, a := range []bool{first, !first} {
+				op := &aVal{Op: "set", B: p, A: a}
+				c.Ops = append(c.Ops, op)
+				c.Un = append(c.Un, false)
+				c.Upd = append(c.Upd, len(c.Ops)-1, rapid.IntRange(0, 2).Draw(t, "retypeCarrier"))
+				cur = aInterp(cur, op)
+			}
+			retyped = true
 		}
 		var info pvInfo
 		var err error
@@ -195,6 +230,9 @@ func TestC15_PureDifferential(t *testing.T) {
 		}
 		if info.pipeline {
 			cls = append(cls, "pipeline")
+		}
+		if retyped {
+			cls = append(cls, "same payload stored with another value type")
 		}
 		st.Case(info.applied >= 3 && len(info.kinds) >= 2, c.fingerprint(), cls, func() interface{} { return c })
 		if err != nil {
